@@ -51,17 +51,33 @@ def sample_case(draw, small=False):
         cand = ev + [[v, spec["states"][J.idx[v]][a[J.idx[v]]]]]
         if J.prob({x: s for x, s in cand}) >= 0.01:
             ev = cand
-    mode = draw(st.sampled_from(["forward", "rejection", "likelihood_weighted", "simulate", "simulate_do", "simulate_evidence", "simulate_virtual_evidence", "simulate_virtual_intervention", "simulate_missing"]))
+    mode = draw(st.sampled_from(["forward", "rejection", "likelihood_weighted", "simulate", "simulate_do", "simulate_do_evidence", "simulate_evidence", "simulate_virtual_evidence", "simulate_virtual_intervention", "simulate_missing"]))
     do = []
 
     def avg_col(v):
         c = next(c for c in spec["cpds"] if c["var"] == v)
         return [sum(row) / len(row) for row in c["table"]]
 
-    if mode == "simulate_do":
+    if mode in ("simulate_do", "simulate_do_evidence"):
         for v in order[ne : ne + draw(st.integers(1, 2))]:
-            ok = [i for i, p in enumerate(avg_col(v)) if p > 0]  # see known finding simulate-do-zero-probability-state
-            do.append([v, spec["states"][J.idx[v]][ok[draw(st.integers(0, len(ok) - 1))]]])
+            # any state, also one that the node's own CPD gives probability 0 (an intervention does not care)
+            k = spec["card"][J.idx[v]]
+            zero = [i for i, p in enumerate(avg_col(v)) if p == 0]
+            i = zero[0] if zero and draw(st.booleans()) else draw(st.integers(0, k - 1))
+            do.append([v, spec["states"][J.idx[v]][i]])
+        if mode == "simulate_do_evidence":
+            # evidence on another variable, likely enough under the intervention for rejection sampling to finish
+            dod = {d[0]: d[1] for d in do}
+            Jd = Joint.from_bn(spec, do={v: spec["states"][J.idx[v]].index(s) for v, s in do})
+            ev = []
+            for v in [x for x in order if x not in dod][:2]:
+                sts = spec["states"][J.idx[v]]
+                best = max(sts, key=lambda s_: Jd.prob({**{x: y for x, y in ev}, **dod, v: s_}))
+                cand = ev + [[v, best]]
+                if Jd.prob({**{x: y for x, y in cand}, **dod}) >= 0.05:
+                    ev = cand
+            if not ev:
+                mode = "simulate_do"
     virt = []
     if mode in ("simulate_virtual_evidence", "simulate_virtual_intervention"):
         v = order[-1]
@@ -89,6 +105,11 @@ def _reference(case):
         J = Joint.from_bn(spec, do=do_idx)
         w = J.weighted(None)
         fixed = {v: s for v, s in case["do"]}
+    elif mode == "simulate_do_evidence":
+        do_idx = {v: _st(spec, v).index(s) for v, s in case["do"]}
+        J = Joint.from_bn(spec, do=do_idx)
+        w = J.weighted(ev)
+        fixed = {**{v: s for v, s in case["do"]}, **ev}
     elif mode == "simulate_virtual_intervention":
         v, lik = case["virtual"][0]
         # soft intervention: cut the incoming edges of v (CPD marginalised as do() does) and weigh by the likelihood
@@ -147,8 +168,10 @@ def _draw(case, model, seed, size):
     if mode == "likelihood_weighted":
         return BayesianModelSampling(model).likelihood_weighted_sample(evidence=[State(v, s) for v, s in case["evidence"]], size=size, include_latents=il, seed=seed, show_progress=False, n_jobs=1)
     kw = dict(n_samples=size, include_latents=il, seed=seed, show_progress=False)
-    if mode == "simulate_do":
+    if mode in ("simulate_do", "simulate_do_evidence"):
         kw["do"] = {v: s for v, s in case["do"]}
+    if mode == "simulate_do_evidence":
+        kw["evidence"] = {v: s for v, s in case["evidence"]}
     if mode == "simulate_evidence":
         kw["evidence"] = {v: s for v, s in case["evidence"]}
     if mode == "simulate_virtual_evidence":
@@ -397,7 +420,7 @@ def check_gibbs(case, out):
 
 
 def check_known_hang(case, out):
-    """simulate(do={X: x}) with x of probability 0 under X's averaged CPD: rejection sampling never accepts."""
+    """simulate(do={X: x}) with x of probability 0 under X's averaged CPD: must return (it used to spin in rejection sampling)."""
     spec = case["spec"]
     model = build_bn(spec)
     r = out.call("simulate_do[zero_probability_state]", model.simulate, n_samples=1, do={case["do"][0][0]: case["do"][0][1]}, seed=1, show_progress=False, _timeout=15)
@@ -412,8 +435,8 @@ _HANG_CASE = {"spec": {"name_kind": "str", "shape": "chain", "nodes": ["A", "B"]
               "do": [["B", 2]]}
 
 SUBCHECKS = [
-    Sub("known_hang", check_known_hang, strategy=lambda tier: st.just(_HANG_CASE), n={"quick": 1, "thorough": 1}, shards={"quick": 1, "thorough": 1},
-        doc="regression probe of the recorded finding: simulate(do=...) to a state of observational probability 0 does not terminate"),
+    Sub("do_zero_probability_state", check_known_hang, strategy=lambda tier: st.just(_HANG_CASE), n={"quick": 1, "thorough": 1}, shards={"quick": 1, "thorough": 1},
+        doc="regression probe of a repaired defect: simulate(do=...) to a state that the node CPD gives probability 0 used not to terminate"),
     Sub("rows", check_rows, strategy=lambda tier: sample_case(), n={"quick": 150, "thorough": 2500},
         shards={"quick": 10, "thorough": 16}, doc="per-row exact checks of forward / rejection / likelihood-weighted sampling and simulate(): counts, columns, state names, support, evidence, weights, seed reproducibility"),
     Sub("distribution", check_stat, strategy=lambda tier: sample_case(small=True), n={"quick": 25, "thorough": 280},
